@@ -20,15 +20,37 @@ package bufmodulestore
 //
 // C09 (sequential, error-return part): the completion marker module.yaml is written last, atomically,
 // and only after every earlier write reported success; any write failure makes the store fail.
+// Added (ca-U): a complete entry is never rewritten (complete-entry-untouched: both early returns happen only on a VALID
+// marker and before any put); nothing is written before the re-check under the exclusive lock, and the two checks read
+// only module.yaml of the entry's own directory view (no-write-before-recheck, checks-read-entry-dir-only); the marker goes
+// into the view of the store bucket mapped onto the key's directory (marker-in-entry-dir) and records exactly the side files
+// that were written, the current version and the files directory (side-files-recorded, record-is-valid-marker);
+// a successful store either saw a valid marker or ended with the atomic put of module.yaml - the sequential form of "a later
+// store repairs an incomplete entry" (stored-or-already-complete, ghost.u_sawComplete); tar layout: the tar is written only
+// after every write into the in-memory bucket succeeded (tar-only-after-complete-store).
+// Not expressible: "no put of module.yaml happens before a side-file put" for a module.yaml written TWICE (reads and writes
+// share ghost.sinkPaths and storage.Copy's contract does not say which puts it made); what is proved is that the LAST put is
+// the atomic marker put and that no write failed before it.
 //@ func (p *moduleDataStore) putModuleData(ctx, moduleData) (retErr)
 //@   property C09
-//@   modifies heap, ghost.fail, ghost.wfail, ghost.sinkPaths, ghost.sinkBuckets, ghost.lastPutOptions, ghost.buf
+//@   modifies heap, ghost.fail, ghost.wfail, ghost.sinkPaths, ghost.sinkBuckets, ghost.lastPutOptions, ghost.buf, ghost.u_sawComplete
 //@   requires !ghost.wfail
 //@   ensures failure-reported: ghost.wfail ==> retErr != nil
 //@   ensures marker-atomic: retErr == nil ==> ghost.lastPutOptions == old(ghost.lastPutOptions) || (len(ghost.lastPutOptions) == 1 && ghost.lastPutOptions[0] == storage.PutWithAtomic())
 //@   assert before "return storage.PutPath(" marker-last: !ghost.wfail
 //@   assert before "return storage.PutPath(" marker-after-files: externalModuleData.FilesDir == externalModuleDataFilesDir
 //@   assert before "depModuleKeys, err := moduleData.DepModuleKeys()" only-module-dir-read: !old(p.tar) ==> (old(p.bucket) in ghost.sinkBuckets ==> old(p.bucket) in old(ghost.sinkBuckets))
+//@   ghost before "moduleKey := moduleData.ModuleKey()" u_sawComplete := false
+//@   ghost before "return nil" u_sawComplete := true
+//@   assert before "return nil" complete-entry-untouched: externalModuleData.isValid() && ghost.lastPutOptions == old(ghost.lastPutOptions) && !ghost.wfail
+//@   assert before "depModuleKeys, err := moduleData.DepModuleKeys()" no-write-before-recheck: ghost.lastPutOptions == old(ghost.lastPutOptions) && !ghost.wfail && !ghost.u_sawComplete
+//@   assert before "depModuleKeys, err := moduleData.DepModuleKeys()" checks-read-entry-dir-only: !old(p.tar) ==> (forall b ref :: b in ghost.sinkBuckets && !(b in old(ghost.sinkBuckets)) ==> b == moduleCacheBucket) && (forall q string :: q in ghost.sinkPaths && !(q in old(ghost.sinkPaths)) ==> q == externalModuleDataFileName)
+//@   assert before "return storage.PutPath(" marker-in-entry-dir: !old(p.tar) ==> u_viewBase(moduleCacheBucket) == old(p.bucket) && u_viewMapper(moduleCacheBucket) == storage.MapOnPrefix(first(getModuleDataStoreDirPath(moduleData.ModuleKey())))
+//@   loop 0 invariant externalModuleData.Version == externalModuleDataVersion && len(externalModuleData.Deps) == len(depModuleKeys) && externalModuleData.FilesDir == "" && externalModuleData.V1BufYAMLFile == "" && externalModuleData.V1BufLockFile == ""
+//@   assert before "data, err := encoding.MarshalYAML(externalModuleData)" side-files-recorded: (v1BufYAMLObjectData == nil ==> externalModuleData.V1BufYAMLFile == "") && (v1BufLockObjectData == nil ==> externalModuleData.V1BufLockFile == "") && (v1BufYAMLObjectData != nil ==> externalModuleData.V1BufYAMLFile == normalpath.Join(externalModuleDataV1BufYAMLDir, v1BufYAMLObjectData.Name())) && (v1BufLockObjectData != nil ==> externalModuleData.V1BufLockFile == normalpath.Join(externalModuleDataV1BufLockDir, v1BufLockObjectData.Name()))
+//@   assert before "data, err := encoding.MarshalYAML(externalModuleData)" record-is-valid-marker: externalModuleData.Version == externalModuleDataVersion && externalModuleData.FilesDir == externalModuleDataFilesDir && len(externalModuleData.Deps) == len(depModuleKeys)
+//@   assert before "retErr = errors.Join(retErr, callback(ctx))" tar-only-after-complete-store: retErr == nil && !ghost.wfail
+//@   ensures stored-or-already-complete: retErr == nil ==> ghost.u_sawComplete || (len(ghost.lastPutOptions) == 1 && ghost.lastPutOptions[0] == storage.PutWithAtomic() && externalModuleDataFileName in ghost.sinkPaths)
 //
 //@ trusted func (p *moduleDataStore) logDebugModuleKey(ctx, moduleKey, message, fields)
 //@ trusted pure func getModuleDataStoreDirPath(moduleKey) (r, err)
@@ -36,4 +58,14 @@ package bufmodulestore
 //@ trusted pure interface bufmodule.ModuleKey
 //@ trusted pure func (bufmodule.ModuleData) ModuleKey() (r)
 //@ trusted pure interface bufmodule.ObjectData
-//@ trusted pure func (e externalModuleData) isValid() (r)
+// isValid (verified against its body; was assumed): a valid marker has the current version, a files directory and only
+// complete dependency entries - and every such record is valid.
+//@ pure func (e externalModuleData) isValid() (r)
+//@   property C09
+//@   ensures version-and-files-dir: r ==> e.Version == externalModuleDataVersion && len(e.FilesDir) > 0
+//@   ensures deps-complete: r ==> (forall i int :: 0 <= i && i < len(e.Deps) ==> e.Deps[i].isValid())
+//@   ensures complete: e.Version == externalModuleDataVersion && len(e.FilesDir) > 0 && (forall i int :: 0 <= i && i < len(e.Deps) ==> e.Deps[i].isValid()) ==> r
+//@   loop 0 invariant forall i int :: 0 <= i && i < $i ==> e.Deps[i].isValid()
+//@ pure func (e externalModuleDataDep) isValid() (r)
+//@   property C09
+//@   ensures r <==> len(e.Name) > 0 && len(e.Commit) > 0 && len(e.Digest) > 0
